@@ -115,6 +115,33 @@ func (s *SUT) Confirm(i int) Op {
 	return s.log(Op{Kind: "confirm", Block: i, Result: res})
 }
 
+// Receive hands tree block i to the engine's real entry point for blocks received from peers
+// (Miner.ProcBlock: validity checks, pending store, VerifyBlock, consensus, ConfirmBlock, Walk of
+// the state to the ledger tip). The engine ignores blocks below the height it has already
+// synchronised to: that is its policy, not a failure.
+func (s *SUT) Receive(i int) Op {
+	err := s.N.ProcBlock(s.T.Blocks[i].Block)
+	res := "ok"
+	switch {
+	case err == nil:
+	case strings.Contains(err.Error(), "lower than in sync height"), strings.Contains(fmt.Sprint(err), "forbidden"), strings.Contains(fmt.Sprint(err), "Forbidden"):
+		res = "ignored(" + err.Error() + ")"
+	default:
+		res = "FAIL(" + err.Error() + ")"
+	}
+	if s.N.Ledger.ExistBlock(s.T.Blocks[i].ID) {
+		s.Confirmed[i] = true
+		s.Arrival = append(s.Arrival, i)
+		s.Stats["receive.stored"]++
+	}
+	if tip := s.Tip(); tip >= 0 {
+		for _, j := range s.T.Path(tip) {
+			s.Applied[j] = true
+		}
+	}
+	return s.log(Op{Kind: "receive", Block: i, Result: res})
+}
+
 func (s *SUT) Play(i int) Op {
 	hz := ""
 	if s.PlayHazard(i) {
@@ -361,6 +388,7 @@ type StepOpts struct {
 	Prune           bool // some walks carry the ledger-prune flag
 	AllowPlayHazard bool // only the check that owns the finding sets this
 	PredictSubmit   bool // compare every pool submission with the model's prediction (C03)
+	Engine          bool // some peer blocks arrive through the engine's real Miner.ProcBlock
 }
 
 // Step performs one random legal operation and returns it.
@@ -392,6 +420,9 @@ func (s *SUT) Step(rng *rand.Rand, o StepOpts) Op {
 	for try := 0; try < 20; try++ {
 		switch r := rng.Intn(100); {
 		case r < 30 && len(confirmable) > 0:
+			if o.Engine && rng.Intn(3) == 0 && s.LedgerTip() >= 0 {
+				return s.Receive(confirmable[rng.Intn(len(confirmable))])
+			}
 			return s.Confirm(confirmable[rng.Intn(len(confirmable))])
 		case r < 45 && len(playable) > 0:
 			i := playable[rng.Intn(len(playable))]
@@ -548,8 +579,18 @@ func CanonAuditor(s *SUT, op Op) []Problem {
 	}
 	tip := s.Tip()
 	ids := s.T.ChainTxids(tip)
+	onChain := map[string]bool{}
+	for _, id := range ids {
+		onChain[string(id)] = true
+	}
 	pool, _ := s.N.State.GetUnconfirmedTx(false)
 	for _, x := range pool {
+		if onChain[string(x.Txid)] {
+			// pending and applied at once: the node would pack it a second time
+			ps = append(ps, Problem{Sig: "canon|pool-holds-transaction-of-the-state-chain",
+				Detail: fmt.Sprintf("pool transaction %x is part of a block on the state's own chain (tip %d)", x.Txid, tip)})
+			return ps
+		}
 		ids = append(ids, x.Txid)
 	}
 	// SelectUtxos(addr, whole unfrozen balance) is part of the vector: "unspent outputs" as a client
